@@ -125,10 +125,16 @@ def normAct (a : Option String) : Option String :=
   | none => none
   | some s => if s.toLower == "no action" then none else some s.toLower
 
+/-- "convert initially + deferrable into one three-state value" (`_fk_constraint_sig`) -/
+def deferState (f : Fk) : String :=
+  if f.initially.map String.toLower == some "deferred" then "initially_deferrable"
+  else if f.deferrable == some true then "deferrable" else "not deferrable"
+
 /-- `_fk_constraint_sig.unnamed` (source table, columns, target table, columns, onupdate,
-ondelete; deferrable / initially are never set in this model) -/
-def fkSig (t : String) (f : Fk) : String × List String × String × List String × Option String × Option String :=
-  (t, f.cols, f.reftable, f.refcols, normAct f.onupdate, normAct f.ondelete)
+ondelete, deferrable/initially as one three-state value); SQLite reflects all of these options -/
+def fkSig (t : String) (f : Fk) :
+    String × List String × String × List String × Option String × Option String × String :=
+  (t, f.cols, f.reftable, f.refcols, normAct f.onupdate, normAct f.ondelete, deferState f)
 
 def compareFks (t : String) (conn md : List Fk) : List Op :=
   (conn.filter (fun c => !(md.map (fkSig t)).contains (fkSig t c))).map (Op.removeFk t) ++
